@@ -376,26 +376,28 @@ type docSpec struct {
 func docSpecs(ctx *core.Ctx) []docSpec {
 	s := ctx.Seed * 1000
 	// every body kind except EOL+"endstream" (see Trace_SeqScan) and the big ones
-	plain := []shared.BodyKind{shared.BodyPlain, shared.BodyBinary, shared.BodyEOL, shared.BodyEndstream, shared.BodyEndobj, shared.BodyMidHeader, shared.BodyEmpty}
+	// and, where /Length can be an indirect object (non-seekable sink), bodies ending in a bare CR
+	plainNS := []shared.BodyKind{shared.BodyPlain, shared.BodyBinary, shared.BodyEOL, shared.BodyEndstream, shared.BodyEndobj, shared.BodyMidHeader, shared.BodyEmpty}
+	plain := append([]shared.BodyKind{shared.BodyCR}, plainNS...)
 	specs := []docSpec{
 		{s + 1, shared.DocOptions{Version: pdf.V1_4, Seekable: true, Objects: 13, Bodies: plain}, "table-1.4"},
 		{s + 2, shared.DocOptions{Version: pdf.V1_7, Seekable: true, Objects: 13, Bodies: plain, Info: true}, "table-1.7-pretty"},
 		{s + 3, shared.DocOptions{Version: pdf.V1_7, XRefStream: true, Seekable: true, Objects: 13, Bodies: plain, Info: true}, "xrefstream-1.7"},
 		{s + 4, shared.DocOptions{Version: pdf.V2_0, XRefStream: true, Seekable: true, Objects: 10, Bodies: plain, Filters: shared.AllFilters}, "xrefstream-2.0-filters"},
-		{s + 5, shared.DocOptions{Version: pdf.V1_3, Seekable: false, Objects: 10, Bodies: plain, Filters: []string{"ASCIIHex", "RunLength"}}, "table-1.3-noseek"},
+		{s + 5, shared.DocOptions{Version: pdf.V1_3, Seekable: false, Objects: 10, Bodies: plainNS, Filters: []string{"ASCIIHex", "RunLength"}}, "table-1.3-noseek"},
 	}
 	// a non-seekable sink and bodies over 1 kB: /Length is an indirect object written after the stream
 	specs = append(specs, docSpec{s + 6, shared.DocOptions{Version: pdf.V1_4, Seekable: false, Objects: 5, Bodies: []shared.BodyKind{shared.BodyBig, shared.BodyPlain}}, "table-1.4-noseek-indirect-length"})
 	if ctx.Thorough() {
 		for k := int64(0); k < 6; k++ {
 			specs = append(specs,
-				docSpec{s + 10 + k, shared.DocOptions{Version: pdf.V1_6, Seekable: k%2 == 0, Objects: 16, Bodies: plain, Filters: shared.AllFilters, Info: k%3 == 0}, "table-1.6"},
-				docSpec{s + 20 + k, shared.DocOptions{Version: pdf.V1_5, XRefStream: true, Seekable: k%2 == 1, Objects: 16, Bodies: plain, Filters: shared.AllFilters, Info: k%3 == 1}, "xrefstream-1.5"})
+				docSpec{s + 10 + k, shared.DocOptions{Version: pdf.V1_6, Seekable: k%2 == 0, Objects: 16, Bodies: plainNS, Filters: shared.AllFilters, Info: k%3 == 0}, "table-1.6"},
+				docSpec{s + 20 + k, shared.DocOptions{Version: pdf.V1_5, XRefStream: true, Seekable: k%2 == 1, Objects: 16, Bodies: plainNS, Filters: shared.AllFilters, Info: k%3 == 1}, "xrefstream-1.5"})
 		}
 		specs = append(specs,
 			docSpec{s + 40, shared.DocOptions{Version: pdf.V1_7, Seekable: true, Objects: 60, MaxBody: 900, Bodies: append(plain, shared.BodyBig), Filters: []string{"Flate", "ASCII85"}, Info: true}, "table-big"},
 			docSpec{s + 41, shared.DocOptions{Version: pdf.V1_7, XRefStream: true, Seekable: true, Objects: 60, MaxBody: 900, Bodies: append(plain, shared.BodyBig), Filters: []string{"Flate", "LZW"}}, "xrefstream-big"},
-			docSpec{s + 42, shared.DocOptions{Version: pdf.V1_7, Seekable: false, Objects: 150, MaxBody: 3200, Bodies: append(plain, shared.BodyBig), Info: true}, "table-50k-noseek"})
+			docSpec{s + 42, shared.DocOptions{Version: pdf.V1_7, Seekable: false, Objects: 115, MaxBody: 3000, Bodies: append(plainNS, shared.BodyBig), Info: true}, "table-50k-noseek"})
 	}
 	return specs
 }
@@ -476,7 +478,7 @@ func run(ctx *core.Ctx) error {
 		"distinct = distinct (cut class x object kind) pairs, the cut class being the token class/context and at/in position of the crash point inside the object it splits"
 	ctx.Ev.Assume("TLC evaluates SeqScan.tla faithfully; the Ref operators state property C20")
 	ctx.Ev.Assume("ground truth: offsets from the sink while writing and an independent byte search for `N G obj`/`endobj`; values recorded while writing; for objects the Writer makes itself (catalog, info, xref stream) the independent tokenizer of shared/docgen_scan.go")
-	ctx.Ev.Assume("documents: no object streams; stream bodies and strings free of line-initial object headers and trailer keywords; stream bodies free of EOL+\"endstream\" (a prefix ending inside such a body is a well-formed shorter object for a reader that tolerates a wrong /Length); unencrypted")
+	ctx.Ev.Assume("documents: no object streams; stream bodies and strings free of line-initial object headers and trailer keywords; stream bodies free of EOL+\"endstream\" (a prefix ending inside such a body is a well-formed shorter object for a reader that tolerates a wrong /Length); where /Length can be indirect (non-seekable sink) no body ends in a bare CR (once the length object is cut off, CR + the Writer's LF cannot be told from a CR LF marker); unencrypted")
 
 	cfg := "MC_SeqScan_q.cfg"
 	if ctx.Thorough() {
